@@ -15,11 +15,11 @@ package aggregator
 //@ func (*AggregatorContext).SetValidatorPowers
 //@   requires agc != nil
 //@   flag noframe
-//@   ensures[C12.svp.nostale] forallb(a, has(agc.validatorsPower, a) ==> has(vp, a))
+//@   ensures[C12.svp.nostale,C13.svp.nostale] forallb(a, has(agc.validatorsPower, a) ==> has(vp, a))
 //@   ensures[C12.svp.power]   forallb(a, has(agc.validatorsPower, a) ==> agc.validatorsPower[a] == vp[a])
 //@ loop #1
 //@   invariant agc.validatorsPower != nil && agc.validatorsPower != vp
-//@   invariant[C12.svp.nostale] forallb(a, has(agc.validatorsPower, a) ==> has(vp, a) && agc.validatorsPower[a] == vp[a])
+//@   invariant[C12.svp.nostale,C13.svp.nostale] forallb(a, has(agc.validatorsPower, a) ==> has(vp, a) && agc.validatorsPower[a] == vp[a])
 //@   invariant forallb(a, has(vp, a) == old(has(vp, a)) && vp[a] == old(vp[a]))
 
 // C12: a round that closes without a price is reported under the token of its feeder (the caller advances that
